@@ -104,6 +104,9 @@ func knownContains(f Facts, text string, needle byte) (val, known bool) {
 		fmt.Sprintf("strings.Contains(%s, %q)", text, string(needle)),
 		fmt.Sprintf("strings.ContainsRune(%s, %d)", text, needle),
 		fmt.Sprintf("strings.ContainsAny(%s, %q)", text, string(needle)),
+		fmt.Sprintf("bytes.Contains(%s, %q)", text, string(needle)),
+		fmt.Sprintf("bytes.ContainsRune(%s, %d)", text, needle),
+		fmt.Sprintf("bytes.ContainsAny(%s, %q)", text, string(needle)),
 	}
 	for _, a := range forms {
 		if v, ok := f[a]; ok {
@@ -1580,7 +1583,7 @@ func rulePXTokenRender(c *Ctx, part string) []Obligation {
 				// the text that was tested must be the text that is written
 				text := ""
 				for atom := range F {
-					for _, fnm := range []string{"strings.Contains", "strings.ContainsAny", "strings.ContainsRune", "strings.IndexByte"} {
+					for _, fnm := range []string{"strings.Contains", "strings.ContainsAny", "strings.ContainsRune", "strings.IndexByte", "bytes.Contains", "bytes.ContainsAny", "bytes.ContainsRune", "bytes.IndexByte"} {
 						if cc := condCall(p.Terms[atom], fnm); cc != nil && len(cc.A) == 2 && segsString(termTemplate(cc.A[0])) == segsString(base) {
 							text = cc.A[0].String()
 						}
@@ -2768,6 +2771,12 @@ func rulePXFileRender(c *Ctx) []Obligation {
 			nd++
 		}
 		exhausted := func(list string, n int) bool {
+			// the length is known on this path (from a test like i == len(list)-1)
+			if kn, ok := p.Mem["#len:"+list]; ok {
+				if v, isN := kn.intVal(); isN {
+					return int(v) == n
+				}
+			}
 			if n == 0 {
 				return F.Has("empty("+list+")", true) || F.Has("lt(0,len("+list+"))", false)
 			}
@@ -3115,7 +3124,10 @@ func rulePXLocalDot(c *Ctx) []Obligation {
 		t.require("the local-path test is exactly f.path == path")
 		t.flush()
 	} else {
-		o.undecided("(*jen.File).isLocal", "anchor", token.NoPos, "anchor lost")
+		// no separate local-path predicate: the comparison is inlined where it is used and judged there
+		// (P-REGISTER: the empty qualifier only for the File's own path; P-ISNULL: a package token is
+		// null exactly for a dot-imported path or the File's own path)
+		o.info("(*jen.File).isLocal", "no separate local-path predicate", token.NoPos, "inlined at its uses; judged by P-REGISTER and P-ISNULL")
 	}
 	if f := c.role("isDotImport"); f != nil {
 		paths, _ := c.Paths(f, PXConfig{})
